@@ -49,6 +49,10 @@ checks = {
  "C10": ("C", "stateless model checking of the real code: cooperative scheduler over lock hooks, exhaustive / preemption-bounded DFS over schedules, sequential-consistency oracle; separate free-running -race pass",
          "Harness goroutines run one at a time under a scheduler that owns every scheduling point (operation start, lock wanted - enabled only while a model of that mutex says free -, lock released). For each scenario (shared mutex-enabled stack of length 0..3, LIFO/FIFO, capacity none/Len+1; 2x1 over 12 mutators, 2x2, 3x1: every interleaving; 3x2: preemption bound 2) every schedule is executed; the outcome (return values + final content) must be one a sequential execution of the reference list produces, with no panic, no deadlock (no enabled thread), configuration never lost or returned, and every change of content or lock bookkeeping inside lock.held..lock.release (raw dump compared at every hook event). Violating schedules are replayed twice for determinism. The 'no data race' clause cannot be seen by a scheduler at synchronisation granularity, so the same bodies also run free-running in a -race binary; that pass is a labelled non-exhaustive complement.",
          "Trusted: the lock model (mutex free/held from the hook events), sequential reference list; interleavings at synchronisation granularity only; race pass is sampling and only classifies read/write vs write/write.", "§3 C10"),
+
+ "C08": ("B", "exhaustive enumeration of (stack, index value, operation) against the reference list, and of (method found by reflection, awkward value, receiver) with a no-panic / still-usable oracle",
+         "Ints: complete product of stacks (kinds, lengths 0..3/4, nil-slot patterns, the four index-option settings, capacity none/Len/Len+1) x index values {MinInt, MinInt+1, MinInt/2, -Len-2..Len+2, MaxInt/2, MaxInt-1, MaxInt} x {Index, Remove, Replace, Traverse, Insert, Defrag, Swap(i,j), Less(i,j)}: results and content compared with the reference list, raw dump unchanged when the index addresses no element, stack still initialised and of the same kind; every other int-taking method found by reflection is called with extreme values. Values: every Stack/Condition method found by reflection that takes `any` or an Operator x ~55 awkward values (typed nils of every depth, zero/freed Stacks and Conditions and aliases, funcs, chans, maps, NaN/Inf, private-field structs, zero reflect.Value, empty slices) x 9 receivers, followed by 18 follow-up calls on the same instance; nothing may panic.",
+         "Trusted: reference list; the awkward-value catalogue (values outside it are not covered); user methods are total.", "§3 C08"),
 }
 not_built = {f"C{i:02d}" for i in range(1,21)} - set(checks)
 m = {
